@@ -114,6 +114,8 @@ func mutantsCmd(repo, dir, only, tier string, withTests bool) int {
 		dir = filepath.Join(root, "mutants")
 	}
 	diffs, _ := filepath.Glob(filepath.Join(dir, "*.diff"))
+	nested, _ := filepath.Glob(filepath.Join(dir, "*", "patch.diff")) // seeded/<id>/patch.diff
+	diffs = append(diffs, nested...)
 	sort.Strings(diffs)
 	self, _ := os.Executable()
 	failures := 0
@@ -121,6 +123,9 @@ func mutantsCmd(repo, dir, only, tier string, withTests bool) int {
 	var rows []row
 	for _, d := range diffs {
 		name := strings.TrimSuffix(filepath.Base(d), ".diff")
+		if filepath.Base(d) == "patch.diff" {
+			name = filepath.Base(filepath.Dir(d))
+		}
 		if only != "" && !strings.Contains(name, only) {
 			continue
 		}
